@@ -32,7 +32,9 @@ impl Doc {
         for el in tree.get_red_root().descendants_with_tokens() {
             if let NodeOrToken::Token(t) = el {
                 let k: LuaTokenKind = t.kind().into();
-                if !matches!(k, LuaTokenKind::TkWhitespace | LuaTokenKind::TkEndOfLine) {
+                // the `#!` line is not Lua code and is never rewritten by the formatter: a selection that
+                // includes it does not oblige the result to cover it
+                if !matches!(k, LuaTokenKind::TkWhitespace | LuaTokenKind::TkEndOfLine | LuaTokenKind::TkShebang) {
                     let r = t.text_range();
                     tokens.push((u32::from(r.start()), u32::from(r.end())));
                 }
@@ -408,6 +410,29 @@ pub fn wrap(item: &str, w: usize) -> String {
     s
 }
 
+/// (statement ending in `;`) × (≤2 lines over {`-- c`, `--[[ c ]]`, `---@type T`, blank}) × (statement starting
+/// with `(`), at top level and inside a block.
+pub fn semicolon_paren_family() -> Vec<String> {
+    let firsts = ["local x = y;\n", "f() ;\n", "x = y; -- t\n"];
+    let fillers = ["-- c\n", "--[[ c ]]\n", "---@type T\n", "\n"];
+    let mut mids: Vec<String> = vec![String::new()];
+    for a in fillers {
+        mids.push(a.to_string());
+        for b in fillers {
+            mids.push(format!("{a}{b}"));
+        }
+    }
+    let mut out = Vec::new();
+    for f in firsts {
+        for m in &mids {
+            let doc = format!("{f}{m}(f or g)()\n");
+            out.push(wrap(&doc, 0));
+            out.push(doc);
+        }
+    }
+    out
+}
+
 pub fn replay(cs: &ConfigSpace, w: &Value) -> Option<Violation> {
     let text = w["text"].as_str()?;
     let b = cs.from_witness(&w["config"])?;
@@ -431,8 +456,8 @@ pub fn run(args: &Args) -> ! {
     let dev01: Vec<Built> = std::iter::once(Cfg::default()).chain(cs.deviations(1)).map(|c| cs.build(&c)).collect();
     let sigma = sigma_f();
     // quick tier: the 121-byte width items (7.5k selections each) are explored under the default configuration only
-    let mid_max = args.extra_usize("mid").unwrap_or(if thorough { usize::MAX } else { 64 });
-    let short_max = args.extra_usize("short").unwrap_or(if thorough { 22 } else { 16 });
+    let mid_max = args.extra_usize("mid").unwrap_or(64);
+    let short_max = args.extra_usize("short").unwrap_or(16);
     let mid: Vec<String> = sigma.iter().filter(|s| s.len() <= mid_max).cloned().collect();
     let short: Vec<String> = sigma.iter().filter(|s| s.len() <= short_max).cloned().collect();
     let mut all = Stats::default();
@@ -468,6 +493,17 @@ pub fn run(args: &Args) -> ! {
     run("Σmid^1×all-selections×dev1", nm, &word(&mid, 1), &dev01[1..], &mut all, &mut phases);
     run("nested(Σmid^1)×all-selections×dev0", nm * nw, &|i| wrap(&mid[(i / nw) as usize], (i % nw) as usize), &dev0, &mut all, &mut phases);
     run("Σshort^2×all-selections×dev0", nsh * nsh, &word(&short, 2), &dev0, &mut all, &mut phases);
+    // statement ending in `;` × 0..2 comment-only / blank lines × statement starting with `(`: what follows the
+    // replaced region decides whether its `;` is optional
+    let semi = semicolon_paren_family();
+    run(
+        if thorough { "semicolon·comments·paren×all-selections×dev≤1" } else { "semicolon·comments·paren×all-selections×dev0" },
+        semi.len() as u64,
+        &|i| semi[i as usize].clone(),
+        if thorough { &dev01 } else { &dev0 },
+        &mut all,
+        &mut phases,
+    );
     // invalid documents must not be range-formatted
     let n1 = SIGMA1.len() as u64;
     let sig1: Vec<String> = SIGMA1.iter().map(|s| s.to_string()).collect();
@@ -475,10 +511,16 @@ pub fn run(args: &Args) -> ! {
         run(&format!("Σ1^{k}×all-selections×dev0"), pow(n1, k as u32), &word(&sig1, k), &dev0, &mut all, &mut phases);
     }
     if thorough {
-        run("Σf^2×all-selections×dev0", ns * ns, &word(&sigma, 2), &dev0, &mut all, &mut phases);
-        run("nested(Σf^1)×all-selections×dev1", ns * nw, &|i| wrap(&sigma[(i / nw) as usize], (i % nw) as usize), &dev01[1..], &mut all, &mut phases);
+        // sized to complete in ≈350 s on 16 idle cores (≈220M evaluations): the full Σf^2 product, the width
+        // items under every deviation and triples of 16-byte items (≈580M evaluations) never finished under the cap
+        run("nested(Σf^1)×all-selections×dev0", ns * nw, &|i| wrap(&sigma[(i / nw) as usize], (i % nw) as usize), &dev0, &mut all, &mut phases);
+        let short22: Vec<String> = sigma.iter().filter(|s| s.len() <= 22).cloned().collect();
+        let n22 = short22.len() as u64;
+        run("Σshort22^2×all-selections×dev0", n22 * n22, &word(&short22, 2), &dev0, &mut all, &mut phases);
+        run("Σmid^2×all-selections×dev0", nm * nm, &word(&mid, 2), &dev0, &mut all, &mut phases);
+        run("nested(Σmid^1)×all-selections×dev1", nm * nw, &|i| wrap(&mid[(i / nw) as usize], (i % nw) as usize), &dev01[1..], &mut all, &mut phases);
         run("Σshort^2×all-selections×dev1", nsh * nsh, &word(&short, 2), &dev01[1..], &mut all, &mut phases);
-        let tiny: Vec<String> = sigma.iter().filter(|s| s.len() <= 16).cloned().collect();
+        let tiny: Vec<String> = sigma.iter().filter(|s| s.len() <= 12).cloned().collect();
         let nt = tiny.len() as u64;
         run("Σtiny^3×all-selections×dev0", nt * nt * nt, &word(&tiny, 3), &dev0, &mut all, &mut phases);
     }
@@ -486,7 +528,7 @@ pub fn run(args: &Args) -> ! {
     let mut rep = Report::new("C07", "exploration");
     rep.exhaustive = phases.iter().all(|p| p.3);
     rep.rule = format!(
-        "documents = every item of Σf (|Σf|={}) under the default configuration, every item of ≤{} bytes ({}) under every single-knob deviation ({} configurations) and inside each of {} nested-block wrappers whose source indentation differs from the configured one, every pair of the {} items of ≤{} bytes{}, every word of the fragment alphabet Σ1^≤{} (invalid documents); selections = ALL (start,end) with start ≤ end on char boundaries, plus 4 ranges reaching beyond the end of the text; each (document, selection, configuration) is one evaluation through reformat_range_in_chunk (the language server's entry) / reformat_range (invalid documents, whole-document cross-check, every reported violation). Oracle: document with syntax errors ⇒ None; otherwise replace_range within the text on char boundaries, covering every non-blank token that lies wholly inside the selection, and the spliced document parses and has C05's canonical form (code tokens, comments, doc shape, code tree) equal to the original's. None for a valid document is accepted (no result). Non-trivial = the replacement text differs from the replaced text.",
+        "documents = every item of Σf (|Σf|={}) under the default configuration, every item of ≤{} bytes ({}) under every single-knob deviation ({} configurations) and inside each of {} nested-block wrappers whose source indentation differs from the configured one, every pair of the {} items of ≤{} bytes{}, the semicolon family ((statement ending in `;`) × ≤2 comment-only/blank lines × (statement starting with `(`), top level and in a block; thorough: under every single-knob deviation), every word of the fragment alphabet Σ1^≤{} (invalid documents); selections = ALL (start,end) with start ≤ end on char boundaries, plus 4 ranges reaching beyond the end of the text; each (document, selection, configuration) is one evaluation through reformat_range_in_chunk (the language server's entry) / reformat_range (invalid documents, whole-document cross-check, every reported violation). Oracle: document with syntax errors ⇒ None; otherwise replace_range within the text on char boundaries, covering every non-blank token that lies wholly inside the selection, and the spliced document parses and has C05's canonical form (code tokens, comments, doc shape, code tree) equal to the original's. None for a valid document is accepted (no result). Non-trivial = the replacement text differs from the replaced text.",
         sigma.len(),
         mid_max,
         mid.len(),
@@ -494,7 +536,7 @@ pub fn run(args: &Args) -> ! {
         WRAPPERS.len(),
         short.len(),
         short_max,
-        if thorough { ", every pair of Σf, the nested and pair documents under every single-knob deviation, every triple of the items of ≤16 bytes" } else { "" },
+        if thorough { ", every item (width items included) inside the wrappers, every pair of the items of ≤22 bytes and of the items of ≤64 bytes under the default configuration, the nested documents and the pairs of ≤16-byte items under every single-knob deviation, every triple of the items of ≤12 bytes" } else { "" },
         if thorough { 3 } else { 2 },
     );
     rep.bounds = json!({
